@@ -88,13 +88,17 @@ def install():
                     if mon is not None:
                         mon.record(tid, name, args)
                     return fn(*args)
-                sched.enter(tid)
+                # The thread already holds the turn (taken at thread start or right after its previous kernel): a step is
+                # "the Python code up to and including the next kernel".  After the kernel returns the turn is given up
+                # and must be re-acquired before the thread's Python code continues, so another thread's steps can run
+                # between this kernel and whatever consumes its output (e.g. a BLAS call on a shared temporary).
                 try:
                     if mon is not None:
                         mon.record(tid, name, args)
                     return fn(*args)
                 finally:
                     sched.leave(tid)
+                    sched.enter(tid)
             wrapped.__wrapped__ = fn
             return wrapped
         setattr(W, k, make(k, fn))
@@ -108,7 +112,8 @@ def uninstall():
 
 
 def run_threads(calls, schedule, monitor=None):
-    """calls: list of callables (one per thread); schedule: sequence of thread indices, one entry per kernel step.
+    """calls: list of callables (one per thread); schedule: sequence of thread indices, one entry per step; a thread with
+    n kernel executions has n+1 steps (Python code + kernel, ..., and the tail after its last kernel).
     returns list of ('ok', result) | ('raise', exc)"""
     sched = Scheduler(schedule)
     _active["sched"], _active["mon"] = sched, monitor
@@ -117,9 +122,13 @@ def run_threads(calls, schedule, monitor=None):
     def body(i):
         _tls.tid = i
         try:
-            results[i] = ("ok", calls[i]())
-        except Exception as e:
-            results[i] = ("raise", e)
+            sched.enter(i)
+            try:
+                results[i] = ("ok", calls[i]())
+            except Exception as e:
+                results[i] = ("raise", e)
+            finally:
+                sched.leave(i)
         finally:
             sched.finish(i)
             _tls.tid = None
